@@ -64,4 +64,42 @@ Ltac expose_state s Hf :=
   cbn [f_s f_z f_v f_c f_cb] in *; subst fs fz fv fc fcb.
 
 (* one monadic step whose result is known by a lemma or by computation *)
-Ltac mstep tac := erewrite bind_Ok by tac; cbv zeta.
+Ltac mstep tac := erewrite bind_Ok by tac; cbv zeta; proj_simpl.
+
+(* expose the integer / boolean content of pv expressions built from literals *)
+Ltac pynorm :=
+  unfold py_add, py_sub, py_mul, py_neg, py_floordiv, py_mod, py_shl, py_shr, py_band, py_bor,
+         py_bxor, py_lt, py_le, py_gt, py_ge, py_eq, py_ne, py_not, py_bool, py_int;
+  cbn [as_int truthy py_eqb].
+
+(* equality of two states built by the same tower of updates: peel the tower, prove the
+   leaves by arithmetic *)
+Ltac S_eq :=
+  try reflexivity;
+  lazymatch goal with
+  | |- Ok _ = Ok _ => f_equal; S_eq
+  | |- (_, _) = (_, _) => f_equal; S_eq
+  | |- upd_regs _ _ = upd_regs _ _ => f_equal; S_eq
+  | |- upd_pc _ _ = upd_pc _ _ => f_equal; S_eq
+  | |- upd_dc _ _ = upd_dc _ _ => f_equal; S_eq
+  | |- upd_f_s _ _ = upd_f_s _ _ => f_equal; S_eq
+  | |- upd_f_z _ _ = upd_f_z _ _ => f_equal; S_eq
+  | |- upd_f_v _ _ = upd_f_v _ _ => f_equal; S_eq
+  | |- upd_f_c _ _ = upd_f_c _ _ => f_equal; S_eq
+  | |- upd_f_cb _ _ = upd_f_cb _ _ => f_equal; S_eq
+  | |- upd_mem _ _ = upd_mem _ _ => f_equal; S_eq
+  | |- upd_halted _ _ = upd_halted _ _ => f_equal; S_eq
+  | |- upd_ers _ _ = upd_ers _ _ => f_equal; S_eq
+  | |- upd_out _ _ = upd_out _ _ => f_equal; S_eq
+  | |- upd_swarning_count _ _ = upd_swarning_count _ _ => f_equal; S_eq
+  | |- setreg _ _ _ = setreg _ _ _ => f_equal; S_eq
+  | |- set_zs _ _ = set_zs _ _ => f_equal; S_eq
+  | |- mem_write _ _ _ = mem_write _ _ _ => f_equal; S_eq
+  | |- mem_read _ _ = mem_read _ _ => f_equal; S_eq
+  | |- PB _ = PB _ => f_equal; S_eq
+  | |- PI _ = PI _ => f_equal; S_eq
+  | |- _ :: _ = _ :: _ => f_equal; S_eq
+  | |- _ ++ _ = _ ++ _ => f_equal; S_eq
+  | |- @eq bool _ _ => destruct_ifs; lia
+  | |- @eq Z _ _ => destruct_ifs; lia
+  end.
